@@ -482,3 +482,75 @@ pub fn s(x: &str) -> String {
 pub fn p(x: &Path) -> String {
     x.display().to_string()
 }
+
+#[derive(Clone, Debug)]
+pub struct StraceCall {
+    pub pid: u32,
+    pub name: String,
+    /// Everything between the outer parentheses (unfinished + resumed parts joined).
+    pub args: String,
+    /// Text after " = " (return value and errno text).
+    pub ret: String,
+}
+
+impl StraceCall {
+    pub fn ret_val(&self) -> Option<i64> {
+        self.ret.trim().split(' ').next()?.parse().ok()
+    }
+}
+
+/// Split "args)    = ret" at the closing parenthesis of the call (strace pads with
+/// spaces before the equals sign).
+fn split_ret(s: &str) -> Option<(&str, &str)> {
+    let i = s.rfind(" = ")?;
+    let before = s[..i].trim_end();
+    let before = before.strip_suffix(')')?;
+    Some((before, &s[i + 3..]))
+}
+
+/// Parse `strace -f -o file` output: joins `<unfinished ...>` / `<... x resumed>` pairs
+/// per pid. Lines that are not syscalls (signals, exits) are skipped.
+pub fn parse_strace(text: &str) -> Vec<StraceCall> {
+    let mut pending: std::collections::HashMap<u32, (String, String)> = std::collections::HashMap::new();
+    let mut out = Vec::new();
+    for line in text.lines() {
+        let (pid, rest) = match line.split_once(' ') {
+            Some((p, r)) if p.chars().all(|c| c.is_ascii_digit()) && !p.is_empty() => (p.parse::<u32>().unwrap_or(0), r.trim_start()),
+            _ => (0, line),
+        };
+        if rest.starts_with("<... ") {
+            // "<... write resumed>, ...) = 5" or "<... write resumed>) = 5"
+            if let Some(idx) = rest.find(" resumed>") {
+                let after = &rest[idx + " resumed>".len()..];
+                if let Some((name, mut args)) = pending.remove(&pid) {
+                    let (more, ret) = match split_ret(after) {
+                        Some((a, r)) => (a, r.to_string()),
+                        None => (after, String::new()),
+                    };
+                    args.push_str(more);
+                    out.push(StraceCall { pid, name, args, ret });
+                }
+            }
+            continue;
+        }
+        let Some(p) = rest.find('(') else { continue };
+        let name = rest[..p].to_string();
+        if name.is_empty() || !name.chars().all(|c| c.is_ascii_alphanumeric() || c == '_') {
+            continue;
+        }
+        let body = &rest[p + 1..];
+        if let Some(i) = body.find(" <unfinished ...>") {
+            pending.insert(pid, (name, body[..i].to_string()));
+            continue;
+        }
+        if let Some((a, r)) = split_ret(body) {
+            out.push(StraceCall {
+                pid,
+                name,
+                args: a.to_string(),
+                ret: r.to_string(),
+            });
+        }
+    }
+    out
+}
